@@ -1,8 +1,52 @@
 from ._muxprops import make, COMMON_RULE
+from . import C12
 
 SPEC = make("C04", "Properties.C04", ['C04_blocked_writer_unblocks', 'C04_reachable_inv', 'C04_delivery_stays_enabled', 'C04_threshold_le_window', 'C04_endpoint_threshold', 'C04_dgram_never_blocks'],
             [("pair", "single", 0.5), ("pair", "dgram", 0.2), ("pair", "", 0.3)],
             COMMON_RULE + "For this property additionally: single-flow scripts (one established stream, then only reads / "
             "plain, vectored and empty writes / shutdowns and message-by-message deliveries, 40-120 labels) whose read and "
             "write results are also compared with the one-direction flow model Flow/Core.v on which the multi-step "
-            "theorems are proved.", "DESIGN.md §5 C04", flow=True)
+            "theorems are proved; and a writer parked for credit while the connection task processes an Acknowledge, on loom threads (the hook's "
+            "programs with an acknowledge thread): in every C11 execution the writer either obtains the credit or is woken, it never stays "
+            "parked with credit available; outcome sets compared with Atomic/Model.v.", "DESIGN.md §5 C04", flow=True)
+
+_base = type(SPEC)
+
+
+class C04(_base):
+    def runs(self, tier, seed):
+        return _base.runs(self, tier, seed) + [("loom:writer-vs-acknowledge", "release", lambda: C12.close_cases(thread="K"), None)]
+
+    def equal(self, case, impl, model):
+        if case.startswith("12 "):
+            return C12.decode_sets(impl) == C12.decode_sets(model)
+        return _base.equal(self, case, impl, model)
+
+    def cell(self, case, impl):
+        if case.startswith("12 "):
+            return "writer-vs-acknowledge/" + "/".join(case.split()[1:])
+        return _base.cell(self, case, impl)
+
+    def trace_violation(self, case, impl):
+        if case.startswith("12 "):
+            w = C12.close_violation(impl)
+            return ("parked-writer-not-woken-by-acknowledge", w) if w else None
+        return _base.trace_violation(self, case, impl)
+
+    def classify(self, case, impl, model):
+        if case.startswith("12 "):
+            w = C12.close_violation(impl)
+            if w:
+                return True, "parked-writer-not-woken-by-acknowledge", w
+            return False, "writer-vs-acknowledge-outcomes", "loom outcome set of a writer racing an acknowledge differs from the model's"
+        return _base.classify(self, case, impl, model)
+
+    def describe(self, case):
+        if case.startswith("12 "):
+            t = case.split()
+            return "one writer (credit %s, %s polls) racing an acknowledge of %s (close %s) on loom threads, all executions" % tuple(t[1:5])
+        return _base.describe(self, case)
+
+
+C04.__name__ = "C04"
+SPEC.__class__ = C04
